@@ -2,6 +2,8 @@
 
 package aucoalesce
 
+import "time"
+
 // VerifNormalizations returns the built-in normalisation tables as loaded by init().
 func VerifNormalizations() (syscalls map[string]*Normalization, recordTypes map[string][]*Normalization) {
 	return syscallNorms, recordTypeNorms
@@ -9,3 +11,20 @@ func VerifNormalizations() (syscalls map[string]*Normalization, recordTypes map[
 
 // VerifNormalizationYAML returns the embedded normalisation table source.
 func VerifNormalizationYAML() []byte { return normalizationDataYAML }
+
+// VerifEntityCaches returns a user cache and a group cache built by the exported constructors whose resolvers are
+// replaced by the given functions (the constructors bind os/user, which a harness cannot script).
+func VerifEntityCaches(expiration time.Duration, resolve func(cache, kind int, key string) string) (users, groups *EntityCache) {
+	users, groups = NewUserCache(expiration), NewGroupCache(expiration)
+	users.byID.lookupFn = func(k string) string { return resolve(0, 0, k) }
+	users.byName.lookupFn = func(k string) string { return resolve(0, 1, k) }
+	groups.byID.lookupFn = func(k string) string { return resolve(1, 0, k) }
+	groups.byName.lookupFn = func(k string) string { return resolve(1, 1, k) }
+	return users, groups
+}
+
+// VerifHardcode pins an id/name pair in one cache, as HardcodeUsers / HardcodeGroups do for the package-level caches.
+func VerifHardcode(c *EntityCache, id, name string) {
+	c.byID.hardcode(id, name)
+	c.byName.hardcode(name, id)
+}
